@@ -85,7 +85,10 @@ class PROP(Prop):
         f"{GB}:Popen2IO.read", f"{GB}:Popen2IO.write", f"{GSOCK}:SocketIO.read", f"{GSOCK}:SocketIO.write",
         f"{GB}:Message.to_io", f"{GB}:Message.from_io", f"{GB}:BaseGateway._send",
         f"{GB}:Popen2IO.close_write", f"{GB}:Popen2IO.close_read", f"{GSOCK}:SocketIO.close_write", f"{GSOCK}:SocketIO.close_read",
+        # the proxied transport's ends of the same contract (read: exactly n bytes or EOFError; write: one item per frame write)
+        "proxy::execnet.gateway_io:ProxyIO.read", "proxy::execnet.gateway_io:ProxyIO.write",
     ]
+    extra_worlds = {"proxy": lambda w: __import__("contracts.proxy", fromlist=["declare"]).declare(w)}
     assumptions = [
         "OS read/recv returns a non-empty prefix (<= n bytes) of the unread stream, or b'' at end of stream (contracts model:RawIn.read, model:Sock.recv)",
         "OS write/sendall appends all bytes in order or raises OSError/ValueError",
